@@ -2106,3 +2106,28 @@ for _w in ('i32', 'i64', 'isize', 'i16', 'i8'):
         MODELS[_pre + 'rem_euclid'] = _int_fold(lambda a, b: a - abs(b) * (a // abs(b)))
         MODELS[_pre + 'div_euclid'] = _int_fold(lambda a, b: (a // b) if b > 0 else -(a // -b))
         MODELS[_pre + 'abs'] = _int_fold(lambda a: abs(a))
+
+
+# f64 classification on constants (witness evaluation of the numeric route)
+def _f64_pred(f):
+    def m(eng, st, fr, t, args, dest, target):
+        v = eng.deref_arg(st, args[0])
+        if is_const(v) and isinstance(cval(v), (int, float)) and not isinstance(cval(v), bool):
+            return cbool(bool(f(float(cval(v)))))
+        return _opaque(eng, st, t, args)
+    return m
+
+
+import math as _math4
+_F64_PREDS = {
+    'is_nan': lambda x: x != x,
+    'is_infinite': lambda x: x in (float('inf'), float('-inf')),
+    'is_finite': lambda x: x == x and x not in (float('inf'), float('-inf')),
+    'is_normal': lambda x: x == x and x not in (float('inf'), float('-inf')) and abs(x) >= 2.2250738585072014e-308,
+    'is_subnormal': lambda x: x != 0.0 and abs(x) < 2.2250738585072014e-308,
+    'is_sign_negative': lambda x: _math4.copysign(1.0, x) < 0,
+    'is_sign_positive': lambda x: _math4.copysign(1.0, x) > 0,
+}
+for _n, _f in _F64_PREDS.items():
+    MODELS[f'core::f64::<impl f64>::{_n}'] = _f64_pred(_f)
+    MODELS[f'std::f64::<impl f64>::{_n}'] = _f64_pred(_f)
